@@ -4,8 +4,10 @@
 prove -> build -> (unit) size classes / flmalloc / stack arithmetic: real code vs extracted model
       -> (lib) whole-library runs with a ledger callback: property oracle on the event stream +
                the extracted ledger transition system must accept every event."""
-import bisect, json, os, subprocess
-import vlib
+import bisect, json, os, re, subprocess
+import vlib, trace
+from props import desc_common as dc
+from props import c01
 
 VF = ["Alloc/SizeClassModel.v", "Alloc/FlmallocModel.v", "Alloc/StackModel.v", "Alloc/LedgerModel.v",
       "Alloc/SizeClassProofs.v", "Alloc/FlmallocProofs.v", "Alloc/StackProofs.v", "Alloc/LedgerProofs.v"]
@@ -251,8 +253,8 @@ def unit_oracle(case, out):
 # library programs
 # ------------------------------------------------------------------------------------------
 
-SIZES = [-1, -1, -1, 0, 0, 1, 100, 2048, 2049, 4095, 4096, 4096, 4097, 8191, 8192, 8193, 12288, 16384, 16385,
-         20000, 65536, 65537, 131072, 200000, 1 << 20, (1 << 20) + 1]
+SIZES = [-1, -1, -1, 0, 0, 1, 100, 2048, 2049, 4095, 4096, 4096, 4097, 8191, 8192, 8193, 12288, 12289, 16383, 16384, 16385,
+         20000, 20480, 49152, 65535, 65536, 65537, 131072, 131073, 196608, 200000, 1 << 20, (1 << 20) + 1, 3 << 19]
 KSIZES = [-1, 0, 1, 4096, 4097, 8192, 12288, 16384, 65536]
 
 
@@ -432,6 +434,8 @@ def lib_oracle(t):
             blk = (1 << py_class(ln)) if val else py_round(gsz)
             start = obj + 16 - ln
             want = py_round(val) if val else 0
+            if val and extra < val:
+                bad.append("event %d: stack of requested size %d: the usable extent recorded for it (%d bytes) is smaller than the request" % (n, val, extra))
             if extra != want:
                 bad.append("event %d: stack of requested size %d carries size word %d, expected %d" % (n, val, extra, want))
             # overlap with live stacks
@@ -547,6 +551,16 @@ def lib_oracle(t):
                 toks.append("%d,reap,%d,%d" % (rank, dtag[obj], S))
             d["state"] = "released"
             d["phase"] = "gone"
+        elif eid == "probe":
+            # the thread touched the low end of [top+16 - requested, top+16): it must be inside its own stack
+            d = desc.get(obj)
+            rec = d["stack"] if d else None
+            if rec is None or rec["state"] != "live":
+                bad.append("event %d: probe by a thread without a live stack" % n)
+            elif extra < min(val, rec["len"]) or extra > rec["len"]:
+                bad.append("event %d: thread D%s asked for %d bytes, the extent it can use below top+16 is %d (stack S%d: %d bytes)" % (
+                    n, dtag.get(obj), val, extra, rec["tag"], rec["len"]))
+            toks.append("%d,at,%d" % (rank, S))
         elif eid == "detach.set":
             d = desc.get(obj)
             if d:
@@ -571,10 +585,255 @@ def judge_run(t, rc):
                     ("canary", "a stack pattern was overwritten while its thread was suspended"),
                     ("poison", "a released (poisoned) stack was written to before it was handed out again"),
                     ("selfrel", "a stack was released by a worker still executing on it"),
+                    ("probe", "a thread could not use the stack size it asked for (pattern at the low end of [top+16-size, top+16) lost, or that address lies in another live stack)"),
                     ("overflow", "event log overflow (harness limit)")):
         if int(r.get(k, "0")) != 0:
             bad.append("%s: %s" % (what, r[k]))
     return bad
+
+
+# ------------------------------------------------------------------------------------------
+# controlled runs (schedule controller harness/lib_interp.c, run helpers of props/desc_common.py)
+# ------------------------------------------------------------------------------------------
+# The same rules (lib_oracle) and the same extracted ledger model, on traces whose schedule is chosen
+# by the controller: 1-4 workers, several preemption probabilities, and `hold` sweeps that park a
+# participant at each finish.* / join.* / detach.* POINT while the others make progress (the release
+# of a stack raced against the switch-away of its thread and against creations on other workers).
+
+HOLD_POINTS = ["finish.readjoin", "finish.cb.detached", "finish.cb.ready2", "finish.cb.freedesc",
+               "join.check", "join.cb.set", "join.reap", "detach.fast", "detach.check", "detach.set", "detach.reap"]
+# (the interpreter's own frames - fprintf of the trace lines - need more than a small stack: sizes start at 32 KiB)
+CTL_SIZES = [32768, 32769, 36864, 40000, 49152, 65535, 65536, 65537, 100000, 131072, 131073]
+
+
+def gen_ctl_race(r):
+    """a fixed shape with many finishes, reaps and creations in flight on every worker"""
+    sz = lambda: r.choice(CTL_SIZES)
+    th = {0: ["create 1 pf ss=%d" % sz(), "create 2", "create 3 pf det", "create 4 pf ss=%d" % sz(), "yield",
+              r.choice(["join 1", "detach 1"]), "create 5 ss=%d" % sz(), "join 2", "join 4",
+              r.choice(["join 5", "detach 5"]), "create 10 pf", "detach 10", "yield", "yield"],
+          1: ["yield", "create 6 ss=%d" % sz(), "join 6"],
+          2: ["create 7 pf ss=%d" % sz(), "yield", "join 7"],
+          3: ["create 8 ss=%d" % sz(), "detach 8", "yield"],
+          4: ["create 9 pf", "join 9", "retval 44"],
+          5: ["yield"], 6: ["yield"], 7: ["nop"], 8: ["yield", "yield"], 9: ["yield"], 10: ["yield"]}
+    return th
+
+
+def gen_ctl_cases(ctx):
+    r = ctx.rng
+    cases = []
+    nfree = 30 if not ctx.thorough else 300
+    for _ in range(nfree):
+        threads, meta = c01.gen_program(r, max_threads=r.choice([4, 6, 9]), reap_kinds=("join", "tryjoinw", "detach"), p_det=5)
+        for nw in (1, 2, 3, 4):
+            cases.append(trace.case_text(nw, r.rng(1, 1 << 30), [], threads, pswitch=r.choice([10, 35, 70])))
+    moves = (1, 4, 12) if not ctx.thorough else (1, 2, 4, 8, 16, 40)
+    for pid in HOLD_POINTS:
+        for mv in moves:
+            for nw in (1, 2, 3, 4):
+                txt = trace.case_text(nw, r.rng(1, 1 << 30), [], gen_ctl_race(r), pswitch=r.choice([10, 35, 70]))
+                txt += "hold %s %d\n" % (pid, mv)
+                if r.chance(1, 2):
+                    txt += "hold %s %d 50\n" % (r.choice(HOLD_POINTS), r.choice([1, 4]))
+                cases.append(txt)
+    return cases
+
+
+def ctl_to_trace(case, events):
+    """a controlled trace in the shape lib_oracle expects (rank, event id, object, value, stack
+    pointer, extra).  The controller prints no addresses: records d<k> and blocks b<k> get synthetic,
+    far-apart addresses; overlap of live extents is reported by the harness itself (ovl=) and passed on."""
+    objs, threads, scripts, params = trace.parse_case(case)
+    det_of = {}
+    for ops in threads.values():
+        for o in ops:
+            if o and o[0] == "create":
+                det_of[int(o[1])] = 1 if "det" in o[2:] else 0
+    t = Trace()
+    t.events, t.result, t.header = [], {"why": "ok"}, {"gsz": 131072, "nw": int(params.get("workers", "1"))}
+    t.extra_bad = []
+    DP = lambda k: (k + 1) << 12
+    START = lambda k: (k + 1) << 44
+    dk_of, blk_of, top_of = {}, {}, {}       # thread tag -> d index; thread tag -> live block; block -> top
+    pend = {}                                # worker -> tag being created
+    # stack the callback of a switching thread runs on = stack of the thread the worker continues with
+    n = len(events)
+    after_cb = [None] * n
+    open_cb = {}
+    for i, e in enumerate(events):
+        if e.kind == "E" and e.words[0] == "cb.enter":
+            open_cb[e.w] = [i, False]
+        elif e.w in open_cb:
+            ent = open_cb[e.w]
+            if ent[1]:                       # first line of the worker after the cb.leave
+                after_cb[ent[0]] = e.actor if e.ctx == "m" else None
+                del open_cb[e.w]
+            elif e.kind == "E" and e.words[0] == "cb.leave":
+                ent[1] = True
+    cur_cb_on = {}
+
+    def sp_of_tag(a):
+        k = blk_of.get(a)
+        return START(k) + 64 if k is not None else 0
+
+    def tail(e):
+        return dict(x.split("=", 1) for x in e.snap.split() if "=" in x), [x for x in e.snap.split() if re.match(r"b\d+$", x)]
+
+    st = (det_of, dk_of, blk_of, top_of, pend, after_cb, cur_cb_on, DP, START, sp_of_tag, tail)
+    for i, e in enumerate(events):
+        if e.kind not in "EP":
+            continue
+        try:
+            _ctl_event(t, i, e, st)
+        except (ValueError, IndexError, KeyError):
+            pass                              # a line cut short by a crash of the library
+    return t
+
+
+def _ctl_event(t, i, e, st):
+    (det_of, dk_of, blk_of, top_of, pend, after_cb, cur_cb_on, DP, START, sp_of_tag, tail) = st
+    if True:
+        eid = e.words[0]
+        if e.kind == "E" and eid == "cb.enter":
+            nx = after_cb[i]
+            cur_cb_on[e.w] = sp_of_tag(nx) if nx is not None else 0
+        sp = cur_cb_on.get(e.w, 0) if e.ctx == "c" else (sp_of_tag(e.actor) if e.actor is not None else 0)
+        obj, val, extra = 0, 0, 0
+        w1 = e.words[1] if len(e.words) > 1 else "-"
+        w2 = e.words[2] if len(e.words) > 2 else "0"
+        tag = int(w1[1:]) if re.match(r"t\d+$", w1) else None
+        if eid in ("alloc.desc", "free.desc"):
+            m = re.search(r"d(\d+)", e.snap)
+            k = int(m.group(1)) if m else -1
+            if eid == "alloc.desc" and tag is not None:
+                dk_of[tag] = k
+                pend[e.w] = tag
+                extra = det_of.get(tag, 0)
+            obj, val = DP(k), int(w2) if w2.lstrip("-").isdigit() else 0
+        elif eid in ("alloc.stack", "free.stack"):
+            kv, bs = tail(e)
+            if not bs:
+                return                        # a stack pointer of 0 (no tail): nothing to release
+            k = int(bs[0][1:])
+            on = kv.get("on", "-")
+            sp = START(int(on[1:])) + 64 if on.startswith("b") else 0
+            extra = int(kv.get("word", "0"))
+            if eid == "alloc.stack":
+                val = int(w2)
+                ext = int(kv.get("ext", "0"))
+                if val == 0:
+                    t.header["gsz"] = ext
+                obj = START(k) + ext - 16
+                top_of[k] = obj
+                if pend.get(e.w) is not None:
+                    blk_of[pend[e.w]] = k
+                if kv.get("ovl", "-") != "-":
+                    t.extra_bad.append("step %d: stack block b%d (%d bytes below its top) handed out while its extent overlaps the live stack block %s" % (
+                        e.step, k, ext, kv["ovl"]))
+            else:
+                val = int(w2) if w2.lstrip("-").isdigit() else 0
+                obj = top_of.get(k, START(k) + (extra or t.header["gsz"]) - 16)
+                for tg, b in list(blk_of.items()):
+                    if b == k:
+                        del blk_of[tg]
+        else:
+            if tag is not None and tag in dk_of:
+                obj = DP(dk_of[tag])
+            val = int(w2) if w2.lstrip("-").isdigit() else 0
+            if eid == "finish.cb.detached":
+                sn = dc._snap(e.snap)
+                extra = int(sn[2]) if sn else 0
+        t.events.append((e.w, eid, obj, val, sp, extra))
+        if e.kind == "E" and eid == "cb.leave":
+            cur_cb_on.pop(e.w, None)
+
+
+def ctl_join_values(case, events):
+    """record intact until reaped, seen from the program: a successful join / tryjoin / timedjoin
+    delivers the value its target returned or exited with"""
+    objs, threads, scripts, params = trace.parse_case(case)
+    expect = {}
+    for tg, ops in threads.items():
+        expect[tg] = 1000 + tg
+        for o in ops:
+            if o and o[0] in ("retval", "exit"):
+                expect[tg] = int(o[1])
+    bad, open_op = [], {}
+    for e in events:
+        if e.kind == "C" and e.actor is not None:
+            open_op.setdefault(e.actor, []).append(e.words)
+        elif e.kind == "R" and e.actor is not None and open_op.get(e.actor):
+            op = open_op[e.actor].pop()
+            kv = dict(x.split("=", 1) for x in e.words[2:] if "=" in x)
+            if op[0] in ("join", "tryjoin", "timedjoin") and e.words[1] == "0" and "val" in kv:
+                tg = int(op[1])
+                if int(kv["val"]) != expect.get(tg):
+                    bad.append("step %d: %s %d returned the value %s, the thread returned %s (its record was not intact until it was reaped)" % (
+                        e.step, op[0], tg, kv["val"], expect.get(tg)))
+    return bad
+
+
+KNOWN_OVERSIZE = "C12-stack-size-above-1GiB"
+OVERSIZES = [(1 << 30) + 1, (1 << 31), (1 << 31) + 4096, (1 << 32) + 4096]
+
+
+def oversize_probe(ctx, libx):
+    """one child process per size: the public setter, one creation, one join (harness op O<size>;
+    mmap is lazy, nothing of the stack is touched).  outcome: ok / rejected / crash"""
+    res = []
+    for sz in OVERSIZES:
+        rc, out, err = run_program(libx, ["O%d" % sz], 1, timeout=60)
+        o = [l for l in out.split("\n") if l.startswith("O size")]
+        r = [l for l in out.split("\n") if l.startswith("R ")]
+        last = o[-1].split() if o else []
+        if r and r[-1].split()[1] == "ok" and rc == 0 and "result" in last:
+            kv = dict(zip(last[1::2], last[2::2]))
+            if kv.get("set") != "0" or kv.get("create") != "0":
+                outcome, detail = "rejected", "set %s create %s" % (kv.get("set"), kv.get("create"))
+            elif kv.get("join") == "0" and kv.get("result") == "7":
+                outcome, detail = "ok", "thread ran and was joined"
+            else:
+                outcome, detail = "crash", "join %s result %s" % (kv.get("join"), kv.get("result"))
+        else:
+            why = r[-1].split()[1] if r else "no result line"
+            outcome, detail = "crash", "%s (exit status %s) after: %s" % (why, rc, " / ".join(o) or "nothing")
+        res.append({"size": sz, "outcome": outcome, "detail": detail})
+    return res
+
+
+def run_controlled(ctx, drv, cases):
+    exe = trace.build_interp()
+    wd = os.path.join(ctx.dir, "ctl")
+    fails, lines, meta, nev, verd, holds = [], [], [], 0, {}, {}
+    for i, c in enumerate(cases):
+        if len(fails) >= 3:
+            break                             # enough failing inputs (a broken library may hang every run)
+        r = dc.safe_run_case(exe, c, wd, "k%04d" % i, timeout=20)
+        v = (r["verdict"] or "none").split()[0]
+        verd[v] = verd.get(v, 0) + 1
+        for l in c.split("\n"):
+            if l.startswith("hold "):
+                holds[l.split()[1]] = holds.get(l.split()[1], 0) + 1
+        nev += len(r["events"])
+        t = ctl_to_trace(c, r["events"])
+        bad, toks = lib_oracle(t)
+        bad = t.extra_bad + bad + ctl_join_values(c, r["events"])
+        if v != "DONE":
+            bad.append("controlled run ended with %s (exit status %s): %s" % (r["verdict"], r["rc"], r["out"][-200:]))
+        if bad:
+            fails.append({"case": c, "messages": bad[:10], "verdict": r["verdict"]})
+        lines.append("ledger %d %s" % (t.header["nw"], " ".join(toks)))
+        meta.append(c)
+    res, _, _ = vlib.run_lines([drv], lines, timeout=900) if lines else ([], 0, "")
+    rej = []
+    for i, c in enumerate(meta):
+        o = res[i] if i < len(res) else "<no output>"
+        if not o.startswith("ledger ok"):
+            rej.append({"case": c, "model": o[:400]})
+    cov = {"controlled_runs": len(meta), "controlled_events": nev, "controlled_verdicts": verd,
+           "controlled_hold_points": holds, "controlled_oracle_failures": len(fails), "controlled_model_rejections": len(rej)}
+    return fails, rej, cov
 
 
 # ------------------------------------------------------------------------------------------
@@ -675,10 +934,19 @@ def run(ctx):
                                       "ledger_model_rejections": len(model_rej), "ledger_inferred_switches": ninf,
                                       "workers": [1, 2, 3, 4]})
     ctx.cov["samples"].append({"program": " ".join(progs[-1][1])[:400], "model": lres[-1][:200] if lres else None})
+
+    # the same rules and the same model under the schedule controller
+    ctl_cases = gen_ctl_cases(ctx)
+    ctl_fail, ctl_rej, ctl_cov = run_controlled(ctx, drv, ctl_cases)
+    ctx.cov["correspondence"].update(ctl_cov)
+
+    # custom stack sizes above the allocator's range (the public setter accepts them)
+    over = oversize_probe(ctx, libx)
+    ctx.cov["correspondence"]["oversize_probe"] = over
     ctx.cov["trusted_base"] += [
         "extraction: ExtrOcamlBasic only; ocaml/driver_C12.ml (mmap oracle = region k at (k+1)*2^40; inference of the context switches that emit no event, each inferred step still has to be enabled in the extracted step function), ocaml/zio.ml",
         "harness/c12_unit.c (mmap intercepted by a macro to name addresses region-relative), harness/c12_lib.c (event callback, stack patterns, poison-on-release; linked -z now because lazy symbol resolution alone overflows a 4 KiB stack)",
-        "tools/props/c12.py: mapping of MYTH_VERIF events to ledger events; the OS schedule (not controlled here)",
+        "tools/props/c12.py: mapping of MYTH_VERIF events to ledger events; OS-scheduled runs (harness/c12_lib.c) and controlled runs (harness/lib_interp.c: the stack pointer of a line is derived from its acting thread, block identity / overlap / executing block from the additive b<k> ext= ovl= on= fields)",
         "modelled, not verified: mmap returns fresh regions (oracle hypothesis of C12_blocks_disjoint); pointer arithmetic without 2^64 wrap; the context switch itself (C03/C04)"]
 
     # verdicts
@@ -686,12 +954,38 @@ def run(ctx):
         c, o, msg = ufail[0]
         ctx.violation("oracle", msg, {"level": "unit", "case": c, "observed": o, "expected": "see property C12",
                                       "all_failing": ufail[:10]}, found=True)
+    crashmsg = lambda f: f["messages"][0].startswith(("the program", "controlled run ended"))
+    lib_fail.sort(key=crashmsg)              # a failing run with a message of the oracle first
+    ctl_fail.sort(key=crashmsg)
     if lib_fail:
         f = lib_fail[0]
         ctx.violation("oracle", f["messages"][0], {"level": "lib", "case": "prog " + " ".join(f["ops"]), "workers": f["workers"],
                                                    "observed": f["messages"], "expected": "no message (property C12 on the event ledger)",
                                                    "result": f["result"], "others": [x["messages"][0] for x in lib_fail[1:6]]}, found=True)
-    if not ufail and not lib_fail:
+    if ctl_fail:
+        f = ctl_fail[0]
+        ctx.violation("oracle", "controlled run: " + f["messages"][0],
+                      {"level": "ctl", "case": f["case"], "observed": f["messages"], "verdict": f["verdict"],
+                       "expected": "no message (property C12 on the event ledger of a controlled run)",
+                       "others": [x["messages"][0] for x in ctl_fail[1:6]]}, found=True)
+    bad_over = [o for o in over if o["outcome"] == "crash"]
+    if bad_over:
+        known = [k for k in vlib.known_findings("C12") if k.get("id") == KNOWN_OVERSIZE]
+        what = ("myth_thread_attr_setstacksize(&a, %d) is accepted (returns 0) and myth_create_ex with that attribute ends with %s; "
+                "every custom stack size above 2^30 does (sizes tried: %s)" % (
+                    bad_over[0]["size"], bad_over[0]["detail"], ", ".join(str(o["size"]) for o in bad_over)))
+        if known:
+            ctx.known("%s: %s" % (KNOWN_OVERSIZE, what))
+        else:
+            ctx.violation("oracle", what, {"level": "lib", "case": "prog O%d" % bad_over[0]["size"], "workers": 1,
+                                           "observed": bad_over, "expected": "the thread runs on a stack of the requested size, or the size is rejected with an error code",
+                                           "finding_id": KNOWN_OVERSIZE}, found=True)
+    if not ufail and not lib_fail and not ctl_fail:
+        if ctl_rej:
+            m = ctl_rej[0]
+            ctx.violation("correspondence", "the ledger model does not accept the event stream of a controlled run: " + m["model"][:300],
+                          {"theorem_or_correspondence": "correspondence Alloc/LedgerModel.v <-> src/myth_sched_func.h (controlled event stream)",
+                           "level": "ctl", "case": m["case"], "observed": m["model"], "expected": "ledger ok"}, found=False)
         if diffs:
             i, c, a, b = diffs[0]
             extra = search_unit(ctx, unit, drv, c, dsz)
@@ -748,6 +1042,17 @@ def replay(ctx, path):
     body = json.load(open(path))
     unit, libx, drv = build(ctx)
     case = body.get("case", "")
+    if body.get("level") == "ctl":
+        exe = trace.build_interp()
+        for rep in range(2):
+            r = dc.safe_run_case(exe, case, os.path.join(ctx.dir, "ctl"), "replay", timeout=60)
+            t = ctl_to_trace(case, r["events"])
+            bad, toks = lib_oracle(t)
+            res, _, _ = vlib.run_lines([drv], ["ledger %d %s" % (t.header["nw"], " ".join(toks))])
+            print("run %d: verdict %s events %d trace %s" % (rep, r["verdict"], len(r["events"]), r["trace_path"]))
+            print("  oracle:", (t.extra_bad + bad + ctl_join_values(case, r["events"]))[:5] or "holds")
+            print("  model: ", res[0][:300] if res else None)
+        return 0
     if body.get("level") == "lib" or case.startswith("prog "):
         ops = case.split()[1:]
         nw = int(body.get("workers", 2))
